@@ -1,11 +1,34 @@
 #!/bin/bash
-# run every seeded change against the check of the property it was written for; prints one line per seed
+# run every seeded change against the check of the property it was written for; prints one line per seed and records
+# which obligations reported it in seeded/<seed>/caught.json (proof = an obligation of the deductive check that is no
+# longer discharged; native = a contract clause falsified by the bounded native stand-in on a concrete input)
 for d in /verif/seeded/*/; do
   s=$(basename $d); prop=${s%%_*}
   if [ -n "$1" ] && [[ ! "$s" =~ $1 ]]; then continue; fi
   out=$(/verif/tools/mut.sh $s $prop 2>&1)
   rc=$(echo "$out" | grep -o "rc=[0-9]*" | tail -1)
-  nv=$(echo "$out" | grep -c "^VIOLATION")
-  first=$(echo "$out" | grep "^VIOLATION" | head -1 | sed 's/.*replay=//' | xargs -n1 basename 2>/dev/null | head -1)
-  echo "$s $rc violations=$nv $first $(echo "$out" | grep -E 'patch failed|not in MANIFEST|unknown property|no contracts' | head -1)"
+  echo "$out" | grep "^VIOLATION" > /tmp/mutall_viol.$$ 
+  python3 - "$d" "$rc" /tmp/mutall_viol.$$ <<'PY'
+import json, sys, os, re
+d, rc, f = sys.argv[1:4]
+proof, native, nowit = set(), set(), set()
+for line in open(f):
+    m = re.search(r'replay=(\S+)(.*)$', line.strip())
+    if not m:
+        continue
+    path, suffix = m.group(1), m.group(2)
+    try:
+        rec = json.load(open(path))
+    except Exception:
+        continue
+    name = rec.get('obligation', os.path.basename(path))
+    if 'failed_vcs' in rec:
+        (nowit if 'no-failing-input-found' in suffix else proof).add(name)
+    else:
+        native.add(name)
+json.dump(dict(exit=rc, proof_obligations=sorted(proof), proof_obligations_without_witness=sorted(nowit),
+               native_clauses=sorted(native)), open(os.path.join(d, 'caught.json'), 'w'), indent=1)
+print(f"{os.path.basename(d.rstrip('/'))} {rc} proof={len(proof)} proof_nowitness={len(nowit)} native={len(native)}")
+PY
+  rm -f /tmp/mutall_viol.$$
 done
